@@ -157,8 +157,8 @@ CHECKS["C02"] = dict(
 
 CHECKS["C19"] = dict(
     category="proof",
-    text="PARTIAL: two of the property's three claims are decided, the third is not. (1) Parameter propagation: BaseParam.__setattr__ / __post_init__ / __setitem__ are interpreted from the real source on the real dataclass tree (MPDrawParams and every nested group): a symbolic value set on a group - by attribute, by item, or through the constructor - reaches every nested group that declares the parameter and no other parameter of any nested group changes; every parameter of five root groups that a nested group shares. (2) What is drawn: MPRenderer.draw_static_obstacle / draw_dynamic_obstacle / draw_phantom_obstacle / draw_environment_obstacle / _draw_occupancy / draw_polygon / draw_rectangle / draw_ellipse and the shapes' draw methods are interpreted with shape drawing on and icons, signals, trajectories, extra occupancies, labels, initial states and history off; matplotlib patch constructors are recorders. Postcondition: the patches collected in renderer.obstacle_patches are, in number, kind and geometry, exactly the shapes of the occupancies occupancy_at_time reports at time_begin (for set-based predictions also at the steps time_begin < t < time_end), nothing otherwise. Symbolic geometry; time_begin <= time_end symbolic for static / environment / dynamic obstacles without and with trajectory, seven windows (before, at the initial step, inside, last step, after, all, begin = end) for set-based, phantom and trajectory obstacles.",
-    note="NOT decided by this check: that drawing plus matplotlib's render() completes without exception for every parameter setting (matplotlib internals are outside any contract here), icons / signals / traffic signs / lights / labels, and draw_lanelet_network with its draw_ids filter (path and colour code on matplotlib internals). The renderer treats time_end as exclusive in its ranges (consistently, also in draw_trajectory); the contract follows that reading. Obstacle horizons are fixed small structures (initial step 1, predictions 2..4).",
+    text="PARTIAL: the property's claims about WHAT is drawn and about parameter propagation are decided; its totality claim (drawing and rendering never raise) is not. (1) Parameter propagation: BaseParam.__setattr__ / __post_init__ / __setitem__ are interpreted from the real source on the real dataclass tree (MPDrawParams and every nested group): a symbolic value set on a group - by attribute, by item, or through the constructor - reaches every nested group that declares the parameter and no other parameter of any nested group changes; every parameter of five root groups that a nested group shares. (2) What is drawn: MPRenderer.draw_static_obstacle / draw_dynamic_obstacle / draw_phantom_obstacle / draw_environment_obstacle / _draw_occupancy / draw_polygon / draw_rectangle / draw_ellipse and the shapes' draw methods are interpreted with shape drawing on and icons, signals, trajectories, extra occupancies, labels, initial states and history off; matplotlib patch constructors are recorders. Postcondition: the patches collected in renderer.obstacle_patches are, in number, kind and geometry, exactly the shapes of the occupancies occupancy_at_time reports at time_begin (for set-based predictions also at the steps time_begin < t < time_end), nothing otherwise. (3) Which lanelets are drawn: MPRenderer.draw_lanelet_network interpreted on a three-lanelet network with symbolic vertices for draw_ids = None, [], one id, two ids out of order, all ids, an id that does not exist (markings, labels, signs, lights, intersections off): exactly one fill collection whose polygons are, in network order, right bound + reversed left bound of exactly the selected lanelets (all for None, none for []), and one right-bound and one left-bound path per selected lanelet. Symbolic geometry; time_begin <= time_end symbolic for static / environment / dynamic obstacles without and with trajectory, seven windows (before, at the initial step, inside, last step, after, all, begin = end) for set-based, phantom and trajectory obstacles.",
+    note="NOT decided by this check: that drawing plus matplotlib's render() completes without exception for every parameter setting (matplotlib internals are outside any contract here), icons / signals / traffic signs / lights / labels / line markings / intersection colouring of draw_lanelet_network. The renderer treats time_end as exclusive in its ranges (consistently, also in draw_trajectory); the contract follows that reading. Obstacle horizons are fixed small structures (initial step 1, predictions 2..4).",
     technique="deductive: AST symbolic execution of the real draw-parameter classes and renderer draw functions with matplotlib constructors as recorders; postconditions discharged by z3; parameter tree enumerated from the real dataclasses",
     design_ref="5/C19",
 )
